@@ -757,7 +757,12 @@ class FileStorage(
                 self.set_max_oid(oid)
             prev_pos = 0
             if prev_txn is not None:
-                prev_txn_pos = self._txn_find(prev_txn, 0)
+                try:
+                    prev_txn_pos = self._txn_find(prev_txn, 0)
+                except UndoError:
+                    # prev_txn is only a hint: the transaction is not
+                    # in this storage, so the data is written.
+                    prev_txn_pos = 0
                 if prev_txn_pos:
                     prev_pos = self._data_find(prev_txn_pos, oid, data)
             old = self._index_get(oid, 0)
